@@ -1,5 +1,300 @@
 import Driver.Common
-/-! Driver for C11 (stub: not built yet). -/
-def main (_args : List String) : IO UInt32 := do
-  IO.eprintln "C11: driver not implemented"
-  return 2
+import CoapVerif.Model.Reader
+import CoapVerif.Model.ReaderPrograms
+import CoapVerif.Spec.Dispatch
+/-!
+Driver for C11.
+`model`: replays a history line on `Model.Reader` (library operations as the programs of `Model.ReaderPrograms`, whose
+`replace` positions come from the generated WaitShape), running to quiescence after every op like `synctest.Wait`,
+and prints the observation line of the harness.
+`judge`: `<history> | <observed line>` → `ok` / `violates <clause>` by `Spec.Dispatch.judge`.
+`classify`: which blocking construct the *current* loop was stuck in at some idle point of the model run (stable
+signatures for known findings): `limiter`, `observe`, `ping`, or `-`.
+-/
+namespace Driver.C11
+open CoapVerif CoapVerif.Model.Reader CoapVerif.Model.ReaderPrograms
+
+structure Sim where
+  s : State
+  obsExch : List Nat := []     -- exchanges that are observations
+  everSent : List Nat := []
+  nextId : Nat := 100000
+  stuck : List String := []
+  racy : Bool := false      -- a loop whose loopDone is closed stood at its select while a message was ready: Go chooses at random
+  rtRace : Bool := false    -- within one quiescence period one goroutine called TryToReplaceLoop while another loop's
+                            -- readingMessages flag changed: which of the two came first is the scheduler's choice
+
+def compileProg (udp : Bool) (limit epLimit : Nat) (prog : String) : List Act :=
+  (prog.splitOn "+").foldl (fun acc st =>
+    if st == "r" || st == "" then acc
+    else if st == "p" then acc ++ [.send 0] ++ pingProg
+    else
+      let k := (st.drop 1).toString.toNat?.getD 0
+      if st.startsWith "g" then acc ++ doProg udp 1 epLimit limit k
+      else if st.startsWith "h" then acc ++ doProg udp (100 + k) epLimit limit k
+      else if st.startsWith "o" then acc ++ observeProg udp 1 epLimit limit k
+      else acc) []
+
+/-- what the current loop is blocked in, if it is -/
+def stuckCause (s : State) : Option String :=
+  match s.loops s.current with
+  | some lp =>
+    if lp.pc == .running then
+      match lp.prog with
+      | .acquire _ _ :: _ => some "limiter"
+      -- the 20 s deadline is DoObserve's (NewObservation's select); a `Do` waits in doInternal's select, which has a
+      -- replacement request before it in today's source
+      | .wait (.delivered _) _ :: _ => if lp.deadline - lp.callStart == 20000 then some "observe" else some "do"
+      | .wait .ponged _ :: _ => some "ping"
+      | .wait (.acked _) _ :: _ => some "ack"
+      | _ => none
+    else none
+  | none => none
+
+def staleRace (s : State) : Bool := Id.run do
+  let mut r := false
+  for l in [0:s.nloops] do
+    match s.loops l with
+    | some lp => if lp.pc == .atSelect && lp.doneClosed && !s.closed && (!s.queue.isEmpty || s.hand.isSome) then r := true
+    | none => pure ()
+  return r
+
+/-- one scheduling round; returns the new state, whether anything moved, and whether a replaced loop stood at its select
+    while a message was ready -/
+def round (s : State) : State × Bool × Bool × List Nat × List Nat := Id.run do
+  let mut s := s
+  let mut moved := false
+  let mut replacers : List Nat := []
+  let mut togglers : List Nat := []
+  -- socket reader
+  if s.hand.isNone && !s.inbox.isEmpty then
+    s := step s .feederRead; moved := true
+  if s.hand.isSome && (s.queue.length < s.cap || s.closed) then
+    s := step s .feederPush; moved := true
+  -- handlers
+  for l in [0:s.nloops] do
+    match s.loops l with
+    | some lp =>
+      if lp.pc == .running then
+        let blocked := match lp.prog with
+          | act :: rest => (doAct s l lp act rest).isNone
+          | [] => false
+        if !blocked then
+          match lp.prog with
+          | .replace :: _ => replacers := l :: replacers
+          | [] => togglers := l :: togglers
+          | _ => pure ()
+          s := step s (.handlerStep l); moved := true
+    | none => pure ()
+  let racy := staleRace s
+  -- selects: a loop whose loopDone is closed leaves, the current one receives
+  for l in [0:s.nloops] do
+    match s.loops l with
+    | some lp =>
+      if lp.pc == .atSelect then
+        if lp.doneClosed || s.closed then
+          s := step s (.loopExit l); moved := true
+        else if !s.queue.isEmpty || s.hand.isSome then
+          togglers := l :: togglers
+          s := step s (.loopTake l); moved := true
+    | none => pure ()
+  return (s, moved, racy, replacers, togglers)
+
+def settle (sim : Sim) : Sim := Id.run do
+  let mut s := sim.s
+  let mut ever := sim.everSent
+  let mut racy := sim.racy
+  let mut enq : List (Nat × Nat) := []
+  let mut allReps : List Nat := []
+  let mut allTogs : List Nat := []
+  for _ in [0:100000] do
+    let (s', moved, r, reps, togs) := round s
+    if r then racy := true
+    allReps := reps ++ allReps
+    allTogs := togs ++ allTogs
+    for w in s'.waitq do
+      if !s.waitq.contains w && !enq.contains w then enq := w :: enq
+    s := s'
+    for k in s.sent do
+      if !ever.contains k then ever := k :: ever
+    if !moved then break
+  let stuck := match stuckCause s with
+    | some c => if (!s.queue.isEmpty || s.hand.isSome || !s.inbox.isEmpty) && !sim.stuck.contains c then c :: sim.stuck else sim.stuck
+    | none => sim.stuck
+  -- goroutines that reach the same limiter entry within one quiescence period do so in an order the scheduler picks
+  let contended := enq.any (fun w => enq.any (fun w' => w'.1 == w.1 && w'.2 != w.2))
+  let rt := allReps.any (fun l => allTogs.any (· != l))
+  return { sim with s := s, everSent := ever, stuck := stuck, racy := racy || contended, rtRace := sim.rtRace || rt }
+
+/-- earliest deadline of a blocked nested call, if any lies in (now, until] -/
+def nextDeadline (s : State) (until_ : Nat) : Option Nat := Id.run do
+  let mut best : Option Nat := none
+  for l in [0:s.nloops] do
+    match s.loops l with
+    | some lp =>
+      if lp.pc == .running && lp.failed == 0 && lp.deadline > s.now && lp.deadline ≤ until_ then
+        best := match best with
+          | some b => some (min b lp.deadline)
+          | none => some lp.deadline
+    | none => pure ()
+  return best
+
+def sleepFor (sim : Sim) (ms : Nat) : Sim := Id.run do
+  let target := sim.s.now + ms
+  let mut sim := sim
+  for _ in [0:1000] do
+    match nextDeadline sim.s target with
+    | some d =>
+      sim := settle { sim with s := step sim.s (.tick (d - sim.s.now)) }
+    | none => break
+  return settle { sim with s := step sim.s (.tick (target - sim.s.now)) }
+
+def resName : Nat → String
+  | 0 => "ok" | 1 => "timeout" | _ => "closed"
+
+/-- the harness logs the application handler, i.e. requests only (ids below 100000) -/
+def fmtLog : LogEv → Option String
+  | .start m => if m < 100000 then some s!"s{m}" else none
+  | .finish m => if m < 100000 then some s!"e{m}" else none
+  | .nested k r el => some s!"n{k}:{resName r}:{el}"
+
+def addOutside (s : State) (prog : List Act) : State :=
+  let lp : Loop := { idleLoop with doneClosed := true, reading := true, pc := .running, prog := prog }
+  { setLoop s s.nloops lp with nloops := s.nloops + 1 }
+
+def applyOp (udp : Bool) (limit epLimit : Nat) (sim : Sim) (f : List String) : Option (Sim × List String) :=
+  let s := sim.s
+  let wire (k : MKind) : Sim := { sim with s := { s with inbox := s.inbox ++ [⟨sim.nextId, k⟩] }, nextId := sim.nextId + 1 }
+  match f with
+  | ["arrive", m, prog] => do
+    let m ← m.toNat?
+    let obs := (prog.splitOn "+").filterMap (fun st => if st.startsWith "o" then (st.drop 1).toString.toNat? else none)
+    some ({ sim with s := { s with inbox := s.inbox ++ [⟨m, .req (compileProg udp limit epLimit prog)⟩] },
+                     obsExch := obs ++ sim.obsExch }, [])
+  | ["call", prog] => some ({ sim with s := addOutside s (compileProg udp limit epLimit prog) }, [])
+  | ["resp", k] => do
+    let k ← k.toNat?
+    if sim.everSent.contains k then some (wire (.resp k), []) else some (sim, [s!"early{k}"])
+  | ["ack", k] => do
+    let k ← k.toNat?
+    if !udp then some (sim, []) else
+    if sim.everSent.contains k then some (wire (.ack k), []) else some (sim, [s!"early{k}"])
+  | ["sep", k] => do
+    let k ← k.toNat?
+    if sim.everSent.contains k then some (wire (if sim.obsExch.contains k then .note k else .sep k), []) else some (sim, [s!"early{k}"])
+  | ["pong"] => if sim.everSent.contains 0 then some (wire .pong, []) else some (sim, ["early0"])
+  | ["close"] => some ({ sim with s := step s .close }, [])
+  | ["settle"] => some (sim, [])
+  | ["sleep", _] => some (sim, [])
+  | _ => none
+
+def model (line : String) : String :=
+  match words line with
+  | "scn" :: tr :: q :: lim :: ep :: ops =>
+    let udp := tr == "udp"
+    let limit := lim.toNat?.getD 0
+    let epLimit := ep.toNat?.getD 0
+    let sim0 : Sim := { s := init (q.toNat?.getD 0) udp [] }
+    let (sim, segs, bad) := ops.foldl (fun (acc : Sim × List String × Bool) op =>
+      let (sim, segs, bad) := acc
+      let f := op.splitOn ":"
+      let n0 := sim.s.log.length
+      -- the harness lets one millisecond of virtual time pass before every arrival / outside call
+      let sim := if f.head? == some "arrive" || f.head? == some "call" then sleepFor sim 1 else sim
+      match applyOp udp limit epLimit sim f with
+      | some (sim1, pre) =>
+        let sim2 := match f with
+          | ["sleep", ms] => sleepFor sim1 (ms.toNat?.getD 0)
+          | _ => settle sim1
+        let evs := pre ++ (sim2.s.log.drop n0).filterMap fmtLog
+        (sim2, segs ++ [if evs.isEmpty then "-" else String.intercalate "," evs], bad)
+      | none => (sim, segs, true)) (sim0, [], false)
+    if bad then "bad-op" else
+    -- datagram: `Process` has not returned while the message is in the reader's hand; stream: the bytes have been read
+    let pending := sim.s.inbox.length + (if udp && sim.s.hand.isSome then 1 else 0)
+    String.intercalate ";" (segs ++ [s!"final:{pending}"])
+  | _ => "bad-op"
+
+def classify (line : String) : String :=
+  match words line with
+  | "scn" :: tr :: q :: lim :: ep :: ops =>
+    let udp := tr == "udp"
+    let limit := lim.toNat?.getD 0
+    let epLimit := ep.toNat?.getD 0
+    let sim0 : Sim := { s := init (q.toNat?.getD 0) udp [] }
+    let sim := ops.foldl (fun (sim : Sim) op =>
+      let f := op.splitOn ":"
+      let sim := if f.head? == some "arrive" || f.head? == some "call" then sleepFor sim 1 else sim
+      match applyOp udp limit epLimit sim f with
+      | some (sim1, _) => (match f with
+          | ["sleep", ms] => sleepFor sim1 (ms.toNat?.getD 0)
+          | _ => settle sim1)
+      | none => sim) sim0
+    -- the order of a TryToReplaceLoop and another loop's flag change only matters when some handler blocks without asking for a replacement
+    (if sim.racy || (sim.rtRace && !sim.stuck.isEmpty) then "racy|" else "det|") ++ (if sim.stuck.isEmpty then "-" else String.intercalate "+" (sim.stuck.reverse))
+  | _ => "bad-op"
+
+open CoapVerif.Spec.Dispatch in
+def history (udp : Bool) (ops : List String) (segs : List String) : Option (List HEv × Nat) := do
+  let mut hist : List HEv := []
+  let mut ackd : List String := []      -- exchanges whose bare ACK really went out
+  let mut segs := segs
+  let mut pending := 0
+  for op in ops do
+    let f := op.splitOn ":"
+    let seg ← segs.head?
+    segs := segs.drop 1
+    let evs := if seg == "-" then [] else seg.splitOn ","
+    let early := evs.any (·.startsWith "early")
+    match f with
+    | ["arrive", m, prog] =>
+      let m ← m.toNat?
+      hist := hist ++ [.arrive m (prog != "r")]
+    | ["resp", k] => if !early then hist := hist ++ [.answered (← k.toNat?)]
+    | ["ack", k] => if !early then ackd := k :: ackd
+    -- a separate response before the ACK does not complete the call (it still waits for the ACK): no claim
+    | ["sep", k] => if !early && (!udp || ackd.contains k) then hist := hist ++ [.answered (← k.toNat?)]
+    | ["pong"] => if !early then hist := hist ++ [.answered 0]
+    | ["close"] => hist := hist ++ [.close]
+    | _ => pure ()
+    for ev in evs do
+      if ev.startsWith "s" then hist := hist ++ [.enter (← (ev.drop 1).toString.toNat?)]
+      else if ev.startsWith "early" then pure ()
+      else if ev.startsWith "e" then hist := hist ++ [.leave (← (ev.drop 1).toString.toNat?)]
+      else if ev.startsWith "n" then
+        match (ev.drop 1).toString.splitOn ":" with
+        | [k, res, _] => hist := hist ++ [.nested (← k.toNat?) (res == "ok")]
+        | _ => none
+      else none
+  match segs with
+  | [fin] => if fin.startsWith "final:" then pending := (fin.drop 6).toString.toNat?.getD 0 else none
+  | _ => none
+  return (hist, pending)
+
+def judgeLine (line : String) : String :=
+  match line.splitOn " | " with
+  | [inp, obs] =>
+    let obs := obs.trimAscii.toString
+    if obs.contains "panic" then "violates no-crash" else
+    match words inp with
+    | "scn" :: tr :: _ :: _ :: _ :: ops =>
+      match history (tr == "udp") ops (obs.splitOn ";") with
+      | some (h, pending) => match Spec.Dispatch.judge h pending with
+        | none => "ok"
+        | some c => s!"violates {c}"
+      | none => "violates unparsable-observation"
+    | _ => "bad-op"
+  | _ => "bad-op"
+
+end Driver.C11
+
+def main (args : List String) : IO UInt32 := do
+  let stdin ← IO.getStdin
+  let stdout ← IO.getStdout
+  match args with
+  | ["model"] => Driver.forLines stdin fun l => stdout.putStrLn (Driver.C11.model l)
+  | ["judge"] => Driver.forLines stdin fun l => stdout.putStrLn (Driver.C11.judgeLine l)
+  | ["classify"] => Driver.forLines stdin fun l => stdout.putStrLn (Driver.C11.classify l)
+  | _ => IO.eprintln "usage: drv_c11 model|judge|classify"; return 2
+  stdout.flush
+  return 0
